@@ -80,6 +80,8 @@ NONMUTATING = {'operator*', 'operator->', 'value', 'front', 'back', 'begin', 'en
                'lower_bound', 'upper_bound', 'top', 'get', 'c_str', 'str'}
 ACCESSOR_COMPONENTS = {'front', 'back', 'begin', 'cbegin'}
 CONTAINER_TYPES = ('std::vector<', 'std::deque<', 'std::queue<', 'std::list<')
+ENUM_SYMBOLS = set()     # names of the enumerators met (their symbols compare by identity)
+
 MATH_FUNCS = {
     'sin': sp.sin, 'cos': sp.cos, 'tan': sp.tan, 'atan': sp.atan, 'asin': sp.asin, 'acos': sp.acos,
     'sqrt': sp.sqrt, 'exp': sp.exp, 'log': sp.log, 'abs': sp.Abs, 'fabs': sp.Abs,
@@ -411,6 +413,7 @@ class Reader:
         k = e['k']
         if 'cv' in e and k not in ('Member',) and e['t'].get('c') in ('int', 'fp', 'bool', 'enum'):
             if k == 'Ref' and e.get('rk') == 'enumconst':
+                ENUM_SYMBOLS.add(e['name'])
                 return [(sp.Symbol(e['name']), st)]
             if not _has_side_effect(e):
                 return [(num(e['cv']) if not isinstance(e['cv'], str) else sp.nan, st)]
@@ -428,6 +431,7 @@ class Reader:
         if k == 'Ref':
             rk = e.get('rk')
             if rk == 'enumconst':
+                ENUM_SYMBOLS.add(e['name'])
                 return [(sp.Symbol(e['name']), st)]
             if rk in ('local', 'param'):
                 if e['id'] in st.alias:
@@ -607,6 +611,9 @@ class Reader:
             if op == '>': return sp.Gt(a, b)
             if op == '<=': return sp.Le(a, b)
             if op == '>=': return sp.Ge(a, b)
+            if op in ('==', '!=') and isinstance(a, sp.Symbol) and isinstance(b, sp.Symbol) and a.name in ENUM_SYMBOLS and b.name in ENUM_SYMBOLS:
+                # two enumerators: distinct names are distinct values
+                return sp.true if (a == b) == (op == '==') else sp.false
             if op == '==': return sp.Eq(a, b)
             if op == '!=': return sp.Ne(a, b)
         except TypeError:
